@@ -263,6 +263,15 @@ func VX_C07_eval() {
 	}
 	vxCheckFrame(r, order, ocols, ix, "Eval")
 	vxCheckFrame(f, names, cols, ix, "source frame")
+	if vx.HasParam("sib") && r.Err == nil {
+		// frames derived from one parent (itself made by adding a column) are independent
+		p := r.Copy("p", order[0])
+		t1 := p.Eval("sib1", Val(types.ColumnName(order[0])), eval.EvalContext(c07ctx()))
+		t2 := p.Eval("sib2", ex, eval.EvalContext(c07ctx()))
+		vx.Check(t2.Err == nil, "second sibling")
+		vxCheckFrame(t1, append(append([]string{}, order...), "p", "sib1"), append(append([]vxCol{}, ocols...), ocols[0], ocols[0]), ix, "first sibling after the second was derived")
+		vxCheckFrame(t2, append(append([]string{}, order...), "p", "sib2"), append(append([]vxCol{}, ocols...), ocols[0], cur[dst]), ix, "second sibling")
+	}
 	vx.Reach("end")
 }
 
